@@ -948,6 +948,14 @@ impl Connection {
                 return;
             }
 
+            // The response carried no metadata: what we hold is the snapshot of the cached
+            // metadata this request was built with. The server announced nothing here, and
+            // another execution may have stored newer metadata meanwhile, so never write
+            // the snapshot back.
+            if rows_result.0.uses_cached_metadata() {
+                return;
+            }
+
             let current_metadata = prepared_statement.get_current_result_metadata();
 
             let updated_id = rows_result.0.metadata().id() != current_metadata.id();
